@@ -48,6 +48,21 @@ func (x *Explorer) doCallVals(st *State, f *Frame, ins ssa.Instruction, c *ssa.C
 	e := x.eng
 	sig := c.Signature()
 	site := e.siteOf(f, ins)
+	if len(st.frames) == 1 && f.contract != nil && len(f.contract.AtCalls) > 0 && !st.dry && !isDefer {
+		name := calleeName(c)
+		if cls := f.contract.AtCalls[name]; len(cls) > 0 {
+			if x.atCallSeen == nil {
+				x.atCallSeen = map[string]bool{}
+			}
+			x.atCallSeen[name] = true
+			env := x.specEnv(st, f, f.contract)
+			for _, cl := range cls {
+				if g, ok := x.goalOf(st, env, cl, "at-call", site); ok {
+					x.emit(st, "at-call", cl.Label, site, g, cl.Where)
+				}
+			}
+		}
+	}
 	if b, ok := c.Value.(*ssa.Builtin); ok && !c.IsInvoke() {
 		x.bind(st, f, res, x.builtin(st, f, ins, b, c, args), isDefer)
 		return
@@ -111,6 +126,8 @@ func (x *Explorer) doCallVals(st *State, f *Frame, ins ssa.Instruction, c *ssa.C
 				// opaque function value: contract on a parameter or a struct field
 				if sc := x.funcValueContract(f, c.Value); sc != nil {
 					con = sc
+				} else if fv.Con != nil {
+					con = fv.Con
 				} else {
 					x.havocCallObs(st, f, "dynamic call via "+valueName(c.Value), valueName(c.Value), site, sig, res, isDefer, allArgs)
 					return
@@ -316,6 +333,8 @@ func (x *Explorer) inline(st *State, f *Frame, fn *ssa.Function, bindings, args 
 	}
 	nf.retRes = res
 	nf.retDefer = isDefer
+	nf.inArgs = args
+	nf.inSnaps = x.argSnapshots(st, args)
 	st.frames = append(st.frames, nf)
 }
 
@@ -343,7 +362,18 @@ func (x *Explorer) doReturn(st *State, f *Frame, r *ssa.Return) {
 	default:
 		v = VTuple{E: vals}
 	}
+	// observers see a call that was explored inline when it returns
+	if f.inArgs != nil {
+		x.observe(st, caller, calleeNameOf(f.fn), f.name, f.inArgs, vals, f.inSnaps)
+	}
 	x.bind(st, caller, f.retRes, v, f.retDefer)
+}
+
+func calleeNameOf(fn *ssa.Function) string {
+	if o := fn.Origin(); o != nil {
+		return o.Name()
+	}
+	return fn.Name()
 }
 
 // atReturn emits the postconditions of the function under contract.
@@ -517,15 +547,32 @@ func (x *Explorer) observe(st *State, f *Frame, callee, site string, args, resul
 	if top.contract == nil {
 		return
 	}
+	if f != top {
+		// calls made from inlined helpers, counted per callee name along the path
+		n := make(map[string]int, len(st.inlCallSeen)+1)
+		for k, v := range st.inlCallSeen {
+			n[k] = v
+		}
+		n[callee]++
+		st.inlCallSeen = n
+	}
 	for _, o := range top.contract.Observes {
 		if o.Callee != callee {
 			continue
 		}
-		if o.Ord != 0 && !strings.HasSuffix(site, fmt.Sprintf("%s#%d", callee, o.Ord)) {
+		if o.Ord != 0 && f == top && !strings.HasSuffix(site, fmt.Sprintf("%s#%d", callee, o.Ord)) {
 			continue
 		}
 		if o.Ord != 0 && f != top {
-			continue
+			// `call F@n` names the n-th call site of F in the function itself. When the function
+			// has no call site of F at all any more - the calls were moved into helpers that are
+			// explored inline - the n-th call of F made from such helpers on this path is meant.
+			if x.eng.staticCallSites(top.fn, callee) != 0 {
+				continue
+			}
+			if st.inlCallSeen == nil || st.inlCallSeen[callee] != o.Ord {
+				continue
+			}
 		}
 		c, _ := st.ghosts[o.Name+".count"].(VInt)
 		if c.T == nil {
@@ -699,4 +746,17 @@ func onlyFreshStores(cur, old *Term) bool {
 		cur = cur.Args[0]
 	}
 	return false
+}
+
+// staticCallSites: how many call sites of a callee (by name) the function's own body has.
+func (e *Engine) staticCallSites(fn *ssa.Function, callee string) int {
+	n := 0
+	for _, b := range fn.Blocks {
+		for _, i := range b.Instrs {
+			if ci, ok := i.(ssa.CallInstruction); ok && calleeName(ci.Common()) == callee {
+				n++
+			}
+		}
+	}
+	return n
 }
